@@ -1133,8 +1133,13 @@ def inlined(F, fn, keep=(), depth=3, ok=default_inline_ok, _stack=()):
         if not cp or cp in stack: continue
         if cp in keep or cp.rsplit("::", 1)[-1] in keep: continue
         g = F.fn(cp)
-        if not ok(F, fn.path, cp, g): continue
-        if len(t[2]) != g.nargs: continue
+        # a closure called directly (`let labelled = |s| ..; labelled("major")`): Fn::call(&closure, (args,)) with the body's own path
+        closure_call = g is not None and g.kind == "closure" and str(t[1].get("decl") or "").rsplit("::", 2)[-2:] in (["Fn", "call"], ["FnMut", "call_mut"], ["FnOnce", "call_once"]) and len(t[2]) == 2
+        if closure_call:
+            if len(g.blocks) > 200: continue
+        else:
+            if not ok(F, fn.path, cp, g): continue
+            if len(t[2]) != g.nargs: continue
         L = len(locals_); B = len(blocks)
         locals_.extend(g.locals)
         for name, val in g.dbg:
@@ -1154,7 +1159,14 @@ def inlined(F, fn, keep=(), depth=3, ok=default_inline_ok, _stack=()):
             blocks.append(nb)
         # the call block: assign parameters, jump to the callee's entry
         nb = dict(b)
-        nb["s"] = list(b["s"]) + [["=", [L + i + 1], ["use", a], b["line"]] for i, a in enumerate(t[2])]
+        if closure_call:
+            tup = t[2][1]
+            pas = [["=", [L + 1], ["use", t[2][0]], b["line"]]]
+            if tup[0] in ("cp", "mv"):
+                pas += [["=", [L + 2 + i], ["use", ["cp", list(tup[1]) + [["f", i, str(i), "tuple"]]]], b["line"]] for i in range(g.nargs - 1)]
+            nb["s"] = list(b["s"]) + pas
+        else:
+            nb["s"] = list(b["s"]) + [["=", [L + i + 1], ["use", a], b["line"]] for i, a in enumerate(t[2])]
         nb["t"] = ["goto", B]
         nb["inl_call"] = {"callee": cp, "info": t[1], "args": t[2], "dest": t[3]}
         blocks[bi] = nb
